@@ -1,4 +1,5 @@
 import Spdc.Real.DeltaK
+import Spdc.Real.ComposeLemmas
 /-!
 # C03 — phase mismatch is `kp − ks − ki − kΛ`; the optimum idler conserves energy and momentum
 
@@ -235,5 +236,110 @@ example : ∃ i : IdlerIn ℝ, i.cp = false ∧ -(π / 2) < i.thetaS ∧ i.theta
     nlinarith [mul_self_nonneg (closingScaled (1.6 : ℝ) 1.65 1550e-9 775e-9 (-0.1) 1 (.on 20e-6 true)).x,
       mul_self_nonneg (closingScaled (1.6 : ℝ) 1.65 1550e-9 775e-9 (-0.1) 1 (.on 20e-6 true)).y,
       mul_pos hz hz]
+
+/-! ## composed model
+
+The theorems above take the refractive indices as inputs.  The theorems below are about the COMPOSED
+model (`Spdc/Model/Compose.lean`), whose only inputs are the primitive setup `Compose.Setup`: the
+indices are computed by the crystal layer (Sellmeier) and the index layer (Fresnel quadratic along the
+beam direction in the crystal frame), the directions by the beam layer, `k_eff` by the poling layer.
+Assumptions: the idler beam exists (`idlerBeam S = .ok i`: always for an explicit idler, `λ_p < λ_s`
+for `"auto"`), `k_eff` does not panic (positive stored period). -/
+
+/-- composed model, T1 lifted: `spdc.delta_k(ω_s, ω_i)` computed from the primitives is
+`k_p − k_s − k_i − k_Λ ẑ` with every wave vector `n ω / c` along the beam's direction, the `n`'s being
+the COMPOSED direction-dependent indices `index_along(get_indices(2πc/ω, T), θ_c, φ_c, dir, pol)`;
+the pump points along `ẑ` and is evaluated at its own centre frequency `2πc/λ_p`. -/
+theorem compose_deltaK_def (S : Compose.Setup ℝ) (i : Beam.Beam ℝ) (hi : Compose.idlerBeam S = .ok i)
+    (ke : ℝ) (hk : Compose.kEff S = .ok ke) (ωs ωi : ℝ) :
+    let s := Compose.signalBeam S
+    let p := Compose.pumpBeam S
+    let ωp := 2 * π * 299792458 / S.lamP
+    let ns := Compose.refractiveIndex S s ωs
+    let ni := Compose.refractiveIndex S i ωi
+    let np := Compose.refractiveIndex S p ωp
+    Compose.deltaK S ωs ωi = .ok
+        ⟨-(ns * ωs / c0 * s.direction.x) - ni * ωi / c0 * i.direction.x,
+         -(ns * ωs / c0 * s.direction.y) - ni * ωi / c0 * i.direction.y,
+         np * ωp / c0 - ns * ωs / c0 * s.direction.z - ni * ωi / c0 * i.direction.z - ke⟩
+      ∧ Compose.deltaK S ωs ωi = .ok
+        (Vec3.sub (Vec3.sub (Vec3.sub (Compose.wavevector S p ωp) (Compose.wavevector S s ωs))
+          (Compose.wavevector S i ωi)) ⟨0, 0, ke⟩) := by
+  intro s p ωp ns ni np
+  have hp : p.frequency = ωp := Compose.omegaP_formula S
+  have hd : p.direction = ⟨0, 0, 1⟩ := Compose.pump_direction S
+  have h1 : Compose.deltaK S ωs ωi = .ok
+      ⟨np * ωp / c0 * p.direction.x - ns * ωs / c0 * s.direction.x - ni * ωi / c0 * i.direction.x,
+       np * ωp / c0 * p.direction.y - ns * ωs / c0 * s.direction.y - ni * ωi / c0 * i.direction.y,
+       np * ωp / c0 * p.direction.z - ns * ωs / c0 * s.direction.z - ni * ωi / c0 * i.direction.z - ke⟩ := by
+    unfold Compose.deltaK
+    rw [hi]
+    simp only [Outcome.bind]
+    rw [deltaK_def _ _ _ _ _ _ _ _ _ _ ke (Compose.kEff_ppDK_of_ok hk)]
+    rw [show (Compose.pumpBeam S).frequency = ωp from hp]
+  refine ⟨?_, ?_⟩
+  · rw [h1, hd]; simp
+  · rw [h1]
+    simp only [Compose.wavevector, wavevector, Vec3.sub, Vec3.smul]
+    congr 1
+    simp only [hd]
+    congr 1 <;> ring
+
+/-- composed model, T2 lifted: for `"idler": "auto"` the idler computed by the composition conserves
+energy in terms of the PRIMITIVE wavelengths, `1/λ_i = 1/λ_p − 1/λ_s`, equivalently
+`ω_i + ω_s = ω_p`; it has the polarization of the PM table and keeps the configured idler waist. -/
+theorem compose_idler_energy (S : Compose.Setup ℝ) (h : S.idlerAuto = true) (i : Beam.Beam ℝ)
+    (hi : Compose.idlerBeam S = .ok i) (hp : 0 < S.lamP) (hs : 0 < S.sig.lam) :
+    1 / Beam.vacuumWavelength i = 1 / S.lamP - 1 / S.sig.lam
+      ∧ i.frequency + (Compose.signalBeam S).frequency = Compose.omegaP S
+      ∧ i.polarization = Compose.polIndex S.pm.idlerPol
+      ∧ i.waist.x = S.idl.wx ∧ i.waist.y = S.idl.wy := by
+  obtain ⟨o, ho, rfl⟩ := Compose.idlerBeam_auto S h i hi
+  have hlp : (Compose.idlerIn S).lp = S.lamP := Compose.pump_wavelength S hp.ne'
+  have hls : (Compose.idlerIn S).ls = S.sig.lam := Compose.signal_wavelength S hs.ne'
+  have he := idler_energy (Compose.idlerIn S) o ho (by rw [hlp]; exact hp)
+  rw [hlp, hls, Compose.wavelengthOfFreq_units] at he
+  obtain ⟨hlt, ho'⟩ := optimumIdler_ok ho
+  rw [hlp, hls] at hlt
+  refine ⟨he, ?_, ?_, rfl, rfl⟩
+  · show o.omega + _ = _
+    rw [ho']
+    simp only [hlp, hls, Compose.signal_frequency, Compose.omegaP_eq, ← Compose.freqOfWavelength_units,
+      freqOfWavelength_eq, idlerLambda]
+    have hd : S.sig.lam - S.lamP ≠ 0 := (sub_pos.mpr hlt).ne'
+    field_simp
+    ring
+  · show Compose.polOfDK o.pol = _
+    rw [ho']
+    exact Compose.pmDK_idlerPol S.pm
+
+/-- non-vacuity of the composed statements: a poled setup with an `"auto"` idler -/
+def exAuto : Compose.Setup ℝ where
+  crystal := .KTP
+  cTheta := 1.5
+  cPhi := 0
+  L := 0.01
+  T := 293
+  counterProp := false
+  pm := .t2_e_eo
+  lamP := 775e-9
+  wpx := 1e-4
+  wpy := 1e-4
+  bandwidth := 1e-9
+  power := 1
+  threshold := 0.01
+  deff := 1e-12
+  sig := ⟨1500e-9, 0.01, 0, 5e-5, 5e-5, -0.003⟩
+  idl := ⟨0, 0, 0, 6e-5, 6e-5, -0.002⟩
+  idlerAuto := true
+  poling := .on (-46e-6) .off
+
+/-- its `k_eff` is a value, its primitive wavelengths are positive with `λ_p < λ_s`, and its idler
+beam exists -/
+example : Compose.kEff exAuto = .ok (Poling.twoPi * 1.0 / (46e-6 * -1.0))
+    ∧ (0 : ℝ) < exAuto.lamP ∧ exAuto.lamP < exAuto.sig.lam ∧ exAuto.idlerAuto = true := by
+  refine ⟨?_, by norm_num [exAuto], by norm_num [exAuto], rfl⟩
+  simp only [Compose.kEff, Compose.pp, exAuto, Poling.PP.new, Poling.PP.kEff, Poling.Sign.mul]
+  norm_num
 
 end Spdc.Props.C03
